@@ -1,7 +1,7 @@
 (** * C12 — The canvas has one cell of margin and contains everything that is drawn.
     Statements only; proofs in Theory/ExtentTheory.v, Theory/PipeInv.v and Theory/Canvas.v. *)
 Require Import SB.Model.Base SB.Model.Unicode SB.Model.Geom SB.Model.Fragment SB.Model.Property SB.Model.Text
-  SB.Model.FragBuf SB.Model.Endorse SB.Model.Lib SB.Theory.ExtentTheory SB.Theory.PipeInv SB.Theory.Canvas
+  SB.Model.FragBuf SB.Model.Endorse SB.Model.Lib SB.Theory.ExtentTheory SB.Theory.PipeInv SB.Theory.Canvas SB.Model.Tree SB.Theory.DocInside
   SB.Gen.AsciiMap SB.Gen.UnicodeMap SB.Gen.CircleTables.
 From Coq Require Import QArith.
 From Coq Require Import List.
@@ -102,10 +102,34 @@ Theorem C12_recognition_stays_in_the_box_of_the_cells :
       Forall (Rc cells X Y) acc /\ Forall (Forall (Rc cells X Y)) groups.
 Proof. exact endorse_cells_in_canvas. Qed.
 
-(** Quoted text is the recorded known finding K1 (it is kept outside the cell map and therefore
-    outside the canvas computation); the step from fragments to the numbers written in the
-    document (scaling, the text anchor inside its cell) is decided by the correspondence and
-    the oracle of this check. *)
+(** From the fragments to the numbers written in the document.  [tick_points f] are the points, in ticks, whose images
+    under the scale are the coordinates in the node of [f] ([fragment_node]: both ends of a line, a marked line or an arc;
+    x, y and x + width, y + height of a rectangle; cx -/+ r, cy -/+ r of a circle; the points of a polygon; the anchor of a
+    text), [inside s W H f] says that every one of them, scaled, lies between 0 and W horizontally and 0 and H vertically.
+    For every input and every settings value with a scale >= 0: every fragment the enclosure pass emits (the document's
+    drawing nodes are [fragment_node] of exactly these, [fragment_nodes]) is inside the canvas of the document or is a quoted
+    text, and so is every fragment of every contact group (the <g> nodes).  Quoted text is the recorded known finding K1
+    (it is kept outside the cell map and therefore outside the canvas computation). *)
+Theorem C12_document_points_inside :
+  forall input st cb frags groups trees,
+    (0 <= scale st)%Q ->
+    cellbuffer_from input = Ok cb -> fragments_of cb = Ok (frags, groups) -> enclose_fragments frags = Ok trees ->
+    let W := fst (canvas_size st (cb_cells cb)) in let H := snd (canvas_size st (cb_cells cb)) in
+    Forall (fun p => inside (scale st) W H (fst p) \/ quoted_of cb (fst p)) (flat_map flatten_tree trees)
+    /\ Forall (Forall (inside (scale st) W H)) groups.
+Proof. exact document_points_inside. Qed.
+Check C12_document_points_inside :
+  forall input st cb frags groups trees,
+    (0 <= scale st)%Q ->
+    cellbuffer_from input = Ok cb -> fragments_of cb = Ok (frags, groups) -> enclose_fragments frags = Ok trees ->
+    let W := fst (canvas_size st (cb_cells cb)) in let H := snd (canvas_size st (cb_cells cb)) in
+    Forall (fun p => inside (scale st) W H (fst p) \/ quoted_of cb (fst p)) (flat_map flatten_tree trees)
+    /\ Forall (Forall (inside (scale st) W H)) groups.
+(** the circle's box and the rectangle's far corner are what the node's numbers add up to *)
+Theorem C12_scaling_is_linear :
+  forall s a b, (sc s (a + b) == sc s a + sc s b)%Q /\ (sc s (a - b) == sc s a - sc s b)%Q.
+Proof. intros s a b. split; [apply sc_add|apply sc_sub]. Qed.
+
 Definition C12_quoted_text_finding : Prop :=
   exists input, match cellbuffer_from input with
                 | Ok cb => cb_escaped cb <> [] /\ cb_cells cb = []
